@@ -70,6 +70,7 @@ fn setup(args: &[String]) -> (cicada::verif_hooks::Sh, usize) {
 }
 fn handle(name: &str, a: &[String]) -> String {
     match name {
+        "cd" => match std::env::set_current_dir(&a[0]) { Ok(_) => "true".to_string(), Err(_) => "false".to_string() },
         "line_to_cmds" => jlist(&vh::line_to_cmds(&a[0]), |x| js(x)),
         "parse_line" => {
             let (t, c) = vh::parse_line(&a[0]);
